@@ -469,9 +469,37 @@ def judgeSpec (c : Case) : String :=
       else if got = want ∨ (got = "err notlink" ∧ (want = "err 22" ∨ want = "err 2")) then s!"spec {c.id} ok {got}"
       else s!"spec {c.id} DIFF spec={got} kernel={want}"
     | _, _, _ => s!"spec {c.id} skip nokern"
+  /- the one-shot open: in-root resolution, then `World.openKind` of the object found (validated for regular
+  files, directories and symlinks; fifos and sockets have open(2) semantics of their own) -/
+  let goOpen (fl : String) (p : String) : String :=
+    match unhex p, c.tree.mapM parseEntry, c.kern, fl.toNat? with
+    | some path, some ents, _ :: _, some flags =>
+      if path.contains 0 then s!"spec {c.id} skip nul" else
+      let w := specWorld ents
+      let rflags := ((cfgVal c "rflags").bind String.toNat?).getD 0
+      let cfg : World.Cfg := { nofollow := hasAll flags O_NOFOLLOW, noSymlinks := hasAll rflags RESOLVE_NO_SYMLINKS,
+                               maxLinks := w.kernelLinks }
+      let want : String := match c.kern with
+        | ["err", e] => s!"err {e}"
+        | "ok" :: "fd" :: rest => s!"ok label={(kvVal rest "label").getD "?"}"
+        | other => s!"? {other}"
+      match World.resolveInRoot w cfg path with
+      | .error e =>
+        if want = "err 36" then s!"spec {c.id} skip nametoolong"
+        else if want = s!"err {e}" then s!"spec {c.id} ok err {e}" else s!"spec {c.id} DIFF spec=err {e} kernel={want}"
+      | .ok o =>
+        let label := ((o - 4) / 2).toNat
+        let ekind : String := if label = 0 then "d" else match ents[label - 1]? with | some e => e.kind | none => "?"
+        if !(ekind = "d" ∨ ekind = "l" ∨ ekind = "f" ∨ ekind = "h") then s!"spec {c.id} skip kind {ekind}" else
+        let got : String := match World.openKind (w.kind o) flags with
+          | .ok () => s!"ok label={label}"
+          | .error e => s!"err {e}"
+        if got = want then s!"spec {c.id} ok {got}" else s!"spec {c.id} DIFF spec={got} kernel={want} flags={flags} kind={ekind}"
+    | _, _, _, _ => s!"spec {c.id} skip nokern"
   match c.op with
   | ["resolve", nf, p] => go (nf = "1") p false
   | ["readlink", p] => go true p true
+  | ["open_subpath", fl, p] => goOpen fl p
   | _ => s!"spec {c.id} skip op"
 
 partial def readCases (h : IO.FS.Stream) (cur : Case) (inAfter : Bool) (pendingCall : Option Call)
